@@ -1,10 +1,1136 @@
-//! Process-level checks (real binaries).
-use crate::engine::*;
-use serde_json::Value;
+//! Process-level checks against the real binaries: C16 (cfgprobe), C15, C18, C19 and the real-binary
+//! part of C20.
 
-pub fn c20_process_part(_ctx: &mut Ctx) -> Vec<Violation> {
-    vec![]
+use crate::engine::*;
+use crate::gen::*;
+use crate::proclab::*;
+use crate::refcodec::{self as rc, hex, Msg};
+use crate::refcrypto::*;
+use crate::refproto::*;
+use proptest::prelude::*;
+use serde::{Deserialize, Serialize};
+use serde_json::Value;
+use std::collections::{BTreeMap, HashSet};
+use std::io::{Read, Write};
+use std::net::{TcpStream, UdpSocket};
+use std::process::{Command, Stdio};
+use std::sync::atomic::{AtomicBool, AtomicU64, Ordering};
+use std::sync::Arc;
+use std::time::{Duration, Instant};
+
+pub const GOOD_SEED: &str = "a32049da0ffde0ded92ce10a0230d35fe615ec8461c14986baa63fe3b3bac3db";
+const CFGPROBE: &str = "/verif/target/debug/cfgprobe";
+
+// =========================================================================================== C16
+
+#[derive(Debug, Clone, Serialize, Deserialize, PartialEq, Eq, Hash)]
+pub struct Probe {
+    pub via_env: bool,
+    /// the configuration as written: (key, value) pairs; `None` value = key omitted
+    pub settings: Vec<(String, String)>,
+    /// create the persistence directory named by the settings
+    pub make_dir: bool,
 }
-pub fn c20_replay(_ctx: &mut Ctx, sub: &str, _case: &Value) -> Res {
-    Err(viol("bad-replay-file", format!("unknown sub {}", sub)))
+
+#[derive(Debug, Clone, PartialEq)]
+enum Expect {
+    Refuse(String),
+    Accept(BTreeMap<String, Value>),
+}
+
+/// The documentation's model (README table + ServerConfig rustdoc): ranges and required keys.
+fn model(p: &Probe) -> Expect {
+    use serde_json::json;
+    let mut eff: BTreeMap<String, Value> = BTreeMap::new();
+    eff.insert("batch_size".into(), json!(64));
+    eff.insert("status_interval".into(), json!(600));
+    eff.insert("health_check_port".into(), Value::Null);
+    eff.insert("client_stats".into(), json!(false));
+    eff.insert("fault_percentage".into(), json!(0));
+    let mut have = HashSet::new();
+    let known = ["interface", "port", "seed", "batch_size", "status_interval", "health_check_port", "client_stats", "fault_percentage", "num_workers", "persistence_directory", "kms_protection"];
+    let mut pdir = None;
+    for (k, v) in &p.settings {
+        if !known.contains(&k.as_str()) {
+            return Expect::Refuse(format!("unknown key {}", k));
+        }
+        have.insert(k.as_str());
+        let int = v.parse::<i128>();
+        let mut ranged = |lo: i128, hi: i128| -> Result<Value, Expect> {
+            match &int {
+                Ok(n) if *n >= lo && *n <= hi => Ok(json!(*n as u64)),
+                _ => Err(Expect::Refuse(format!("{}={} outside {}..={}", k, v, lo, hi))),
+            }
+        };
+        let r = match k.as_str() {
+            "port" => ranged(1, 65_535),
+            "batch_size" => ranged(1, 64),
+            "fault_percentage" => ranged(0, 50),
+            "num_workers" => ranged(1, u64::MAX as i128),
+            "health_check_port" => ranged(1, 65_535),
+            "status_interval" => ranged(1, 65_535),
+            "client_stats" => Ok(json!(matches!(v.to_ascii_lowercase().as_str(), "on" | "yes"))),
+            "seed" => {
+                if v.len() == 64 && v.bytes().all(|c| c.is_ascii_hexdigit()) {
+                    Ok(json!(v.to_ascii_lowercase()))
+                } else {
+                    Err(Expect::Refuse(format!("seed {:?} is not 64 hex characters", v)))
+                }
+            }
+            "persistence_directory" => {
+                pdir = Some(v.clone());
+                Ok(json!(v))
+            }
+            _ => Ok(json!(v)),
+        };
+        match r {
+            Ok(val) => {
+                eff.insert(k.clone(), val);
+            }
+            Err(e) => return e,
+        }
+    }
+    for req in ["interface", "port", "seed"] {
+        if !have.contains(req) {
+            return Expect::Refuse(format!("required key {} missing", req));
+        }
+    }
+    if eff.get("client_stats") == Some(&json!(true)) && (pdir.is_none() || !p.make_dir) {
+        return Expect::Refuse("client_stats on without an existing persistence directory".into());
+    }
+    Expect::Accept(eff)
+}
+
+fn value_class(k: &str, v: &str) -> &'static str {
+    match v.parse::<i128>() {
+        Ok(n) => {
+            let width: i128 = match k {
+                "port" | "health_check_port" | "status_interval" => 65_535,
+                "batch_size" | "fault_percentage" => 255,
+                _ => u64::MAX as i128,
+            };
+            if n < 0 {
+                "negative"
+            } else if n > width {
+                "beyond-type-width"
+            } else {
+                "within-type-width"
+            }
+        }
+        Err(_) => "non-numeric",
+    }
+}
+
+fn run_probe(p: &Probe) -> Result<(i32, Value, String), String> {
+    let dir = scratch_dir("cfg");
+    let mut settings = p.settings.clone();
+    for (k, v) in settings.iter_mut() {
+        if k == "persistence_directory" && v == "@DIR@" {
+            *v = dir.join("stats").display().to_string();
+        }
+    }
+    if p.make_dir {
+        let _ = std::fs::create_dir_all(dir.join("stats"));
+    }
+    let mut cmd = Command::new(CFGPROBE);
+    cmd.env_clear().env("RUST_BACKTRACE", "0");
+    if p.via_env {
+        for (k, v) in &settings {
+            cmd.env(format!("ROUGHENOUGH_{}", k.to_uppercase()), v);
+        }
+        cmd.arg("ENV");
+    } else {
+        let path = dir.join("probe.cfg");
+        let body: String = settings.iter().map(|(k, v)| format!("{}: {}\n", k, v)).collect();
+        std::fs::write(&path, body).map_err(|e| e.to_string())?;
+        cmd.arg(&path);
+    }
+    let out = cmd.stdin(Stdio::null()).output().map_err(|e| format!("spawn cfgprobe: {}", e))?;
+    let _ = std::fs::remove_dir_all(&dir);
+    let code = out.status.code().unwrap_or(-1);
+    let stdout = String::from_utf8_lossy(&out.stdout).to_string();
+    let json: Value = stdout.lines().last().and_then(|l| serde_json::from_str(l).ok()).unwrap_or(Value::Null);
+    Ok((code, json, String::from_utf8_lossy(&out.stderr).to_string()))
+}
+
+fn check_probe(ctx: &mut Ctx, p: &Probe) -> Res {
+    ctx.eval();
+    let want = model(p);
+    let (code, got, stderr) = match run_probe(p) {
+        Ok(x) => x,
+        Err(e) => {
+            ctx.inconclusive(e);
+            return Ok(());
+        }
+    };
+    // the varied setting is the last one
+    let (vk, vv) = p.settings.last().cloned().unwrap_or_default();
+    let src = if p.via_env { "env" } else { "file" };
+    let cls = value_class(&vk, &vv);
+    ctx.class(&format!("c16:{}:{}:{}:{}", src, vk, cls, if matches!(want, Expect::Accept(_)) { "in-range" } else { "must-refuse" }));
+    if cls != "within-type-width" {
+        ctx.nontrivial(p);
+    }
+    match want {
+        Expect::Refuse(why) => {
+            if code == 0 {
+                return ctx.fail(
+                    format!("accepted-out-of-range|{}|{}|{}", src, vk, cls),
+                    format!("{} source, {}={:?} must be refused ({}) but start-up was accepted with effective settings {}", src, vk, vv, why, got),
+                );
+            }
+        }
+        Expect::Accept(eff) => {
+            if code != 0 {
+                return ctx.fail(
+                    format!("refused-in-range|{}|{}", src, vk),
+                    format!("{} source, settings {:?} are all documented and in range but start-up was refused (exit {}): {} {}", src, p.settings, code, got, stderr.lines().next().unwrap_or("")),
+                );
+            }
+            for (k, v) in &eff {
+                let g = got.get(k).cloned().unwrap_or(Value::Null);
+                let same = if k == "persistence_directory" { true } else { &g == v };
+                if !same {
+                    return ctx.fail(
+                        format!("effective-differs-from-written|{}|{}", src, k),
+                        format!("{} source: {} written as {} but the server would run with {} (settings {:?})", src, k, v, g, p.settings),
+                    );
+                }
+            }
+        }
+    }
+    Ok(())
+}
+
+fn base_settings() -> Vec<(String, String)> {
+    vec![("interface".into(), "127.0.0.1".into()), ("port".into(), "8686".into()), ("seed".into(), GOOD_SEED.into())]
+}
+
+fn int_grid(key: &str) -> Vec<i128> {
+    let (lo, hi): (i128, i128) = match key {
+        "port" | "health_check_port" => (1, 65_535),
+        "batch_size" => (1, 64),
+        "fault_percentage" => (0, 50),
+        "num_workers" => (1, 64),
+        _ => (1, 65_535),
+    };
+    let mut v = vec![lo - 1, lo, (lo + hi) / 2, hi, hi + 1, 255, 256, 300, 65_535, 65_536, 70_000, -1, -200, 1 << 31, (1i128 << 32) + 5, (1i128 << 32) + 8686];
+    if key == "status_interval" {
+        // only 1..=65535 is classified by the documents
+        v = vec![1, 2, 10, 255, 256, 600, 65_535];
+    }
+    if key == "health_check_port" {
+        v.retain(|x| *x != 0);
+    }
+    if key == "num_workers" {
+        v.retain(|x| *x <= 1 << 33);
+    }
+    v.sort();
+    v.dedup();
+    v
+}
+
+fn with_setting(k: &str, v: &str, via_env: bool) -> Probe {
+    let mut s = base_settings();
+    let mut make_dir = false;
+    s.retain(|x| x.0 != k);
+    if k == "client_stats" {
+        s.push(("persistence_directory".into(), "@DIR@".into()));
+        make_dir = true;
+    }
+    s.push((k.to_string(), v.to_string()));
+    Probe { via_env, settings: s, make_dir }
+}
+
+fn c16_grid() -> Vec<Probe> {
+    let mut out = vec![];
+    for via_env in [false, true] {
+        for key in ["port", "batch_size", "fault_percentage", "num_workers", "health_check_port", "status_interval"] {
+            for v in int_grid(key) {
+                out.push(with_setting(key, &v.to_string(), via_env));
+            }
+        }
+        for v in ["on", "ON", "yes", "off", "no", "Yes", "On"] {
+            out.push(with_setting("client_stats", v, via_env));
+        }
+        out.push(with_setting("interface", "127.0.0.1", via_env));
+        out.push(with_setting("interface", "0.0.0.0", via_env));
+        // seeds of wrong length / alphabet
+        for s in [&GOOD_SEED[..62], &GOOD_SEED[..63], GOOD_SEED, &format!("{}a", GOOD_SEED), &format!("{}ab", GOOD_SEED), &format!("{}zz", &GOOD_SEED[..62]), &GOOD_SEED.to_uppercase()] {
+            out.push(with_setting("seed", s, via_env));
+        }
+        // missing required keys
+        for missing in ["port", "interface", "seed"] {
+            let mut s = base_settings();
+            s.retain(|x| x.0 != missing);
+            s.push(("batch_size".into(), "32".into()));
+            out.push(Probe { via_env, settings: s, make_dir: false });
+        }
+        // client_stats on without a directory
+        let mut s = base_settings();
+        s.push(("client_stats".into(), "on".into()));
+        out.push(Probe { via_env, settings: s, make_dir: false });
+    }
+    // unknown key (file only: unknown environment variables are simply not read)
+    let mut s = base_settings();
+    s.push(("frobnicate".into(), "1".into()));
+    out.push(Probe { via_env: false, settings: s, make_dir: false });
+    out
+}
+
+fn c16_random() -> impl Strategy<Value = Probe> {
+    let key = prop::sample::select(vec!["port", "batch_size", "fault_percentage", "num_workers", "health_check_port", "status_interval"]);
+    (any::<bool>(), key).prop_flat_map(|(via_env, key)| {
+        let val: BoxedStrategy<i128> = match key {
+            "status_interval" => (1i128..=65_535).boxed(),
+            "health_check_port" => prop_oneof![3 => 1i128..=65_535, 2 => 65_536i128..=200_000, 1 => -70_000i128..=-1, 1 => (1i128 << 31)..(1i128 << 33)].boxed(),
+            "num_workers" => prop_oneof![3 => 1i128..=1_000, 1 => -1_000i128..=0].boxed(),
+            _ => prop_oneof![3 => -10i128..=300, 2 => 0i128..=70_000, 1 => 65_000i128..=140_000, 1 => -70_000i128..=-1, 1 => (1i128 << 31)..(1i128 << 33)].boxed(),
+        };
+        val.prop_map(move |v| with_setting(key, &v.to_string(), via_env))
+    })
+}
+
+pub fn run_c16(ctx: &mut Ctx) -> Vec<Violation> {
+    let t = ctx.tier;
+    let mut out = vec![];
+    let grid = c16_grid();
+    let v = run_enum(ctx, "grid", grid.len() as u64, |i| grid[i as usize].clone(), |ctx, p| check_probe(ctx, p));
+    if v.is_empty() && ctx.shard == 0 {
+        ctx.stats.exhaustive_spaces.push(format!("boundary grid: {} probes (6 integer keys x boundary/wrap values, client_stats spellings, interfaces, seed lengths/alphabets, missing keys, unknown key) x file/ENV", grid.len()));
+        ctx.sample("grid", 3, &grid[5]);
+    }
+    out.extend(v);
+    out.extend(run_prop(ctx, "random", t.pick(1_600, 32_000), 200, c16_random(), |ctx, p| {
+        ctx.sample("random", 2, p);
+        check_probe(ctx, p)
+    }));
+    if t == Tier::Thorough {
+        out.extend(c16_real_server_spot(ctx));
+    }
+    out
+}
+
+/// thorough: start the real server and compare its start-up log lines with what was written
+fn c16_real_server_spot(ctx: &mut Ctx) -> Vec<Violation> {
+    let cases: Vec<(u32, u32, u64, bool)> = vec![(1, 0, 1, false), (64, 50, 2, true), (2, 1, 3, false), (63, 10, 4, true)];
+    run_enum(ctx, "real-spot", cases.len() as u64, |i| cases[i as usize], |ctx, (bs, fault, workers, via_env)| {
+        ctx.eval();
+        let cfg = SrvCfg { seed_hex: GOOD_SEED.into(), workers: Some(*workers), batch_size: Some(*bs), fault: Some(*fault), via_env: *via_env, ..Default::default() };
+        let mut s = match ServerProc::start(&cfg) {
+            Ok(s) => s,
+            Err(e) => {
+                ctx.inconclusive(e);
+                return Ok(());
+            }
+        };
+        if let Err(e) = s.wait_ready(Duration::from_secs(10)) {
+            return ctx.fail("real-server-not-serving", e);
+        }
+        std::thread::sleep(Duration::from_millis(100));
+        let out = s.output();
+        let want = [format!("Number of workers          : {}", workers), format!("Max response batch size    : {}", bs), format!("Server listening on        : 127.0.0.1:{}", s.port), if *fault > 0 { format!("Deliberate response errors : ~{}%", fault) } else { "Deliberate response errors : disabled".into() }];
+        for w in want {
+            if !out.contains(&w) {
+                return ctx.fail("startup-log-differs-from-written", format!("expected log line {:?}; output: {}", w, out));
+            }
+        }
+        ctx.nontrivial(&("real-spot", bs, fault, workers, via_env));
+        s.signal(libc::SIGTERM);
+        s.wait_exit(Duration::from_secs(5));
+        Ok(())
+    })
+}
+
+pub fn replay_c16(ctx: &mut Ctx, sub: &str, case: &Value) -> Res {
+    match sub {
+        "grid" | "random" => replay_case::<Probe, _>(ctx, case, |ctx, p| check_probe(ctx, p)),
+        _ => Err(viol("bad-replay-file", format!("sub {} is replayed by re-running the check", sub))),
+    }
+}
+
+// =========================================================================================== shared: reference UDP client
+
+/// send one request and wait for its reply
+fn exchange(sock: &UdpSocket, addr: std::net::SocketAddr, req: &[u8], timeout: Duration) -> Option<Vec<u8>> {
+    sock.set_read_timeout(Some(timeout)).ok()?;
+    sock.send_to(req, addr).ok()?;
+    let mut buf = [0u8; 4096];
+    match sock.recv_from(&mut buf) {
+        Ok((n, _)) => Some(buf[..n].to_vec()),
+        Err(_) => None,
+    }
+}
+
+fn pubk_of(info: &RespInfo) -> Vec<u8> {
+    info.pubk.clone()
+}
+
+// =========================================================================================== C15
+
+#[derive(Debug, Clone, Serialize, Deserialize, PartialEq, Eq, Hash)]
+pub struct ConfigCase {
+    /// None = not written (default = available parallelism)
+    pub workers: Option<u8>,
+    pub health: bool,
+    pub batch_size: Option<u8>,
+    pub fault: Option<u8>,
+    pub status_interval: Option<u16>,
+    pub stats: bool,
+    pub via_env: bool,
+    /// 0 = ordinary seed, 1 = 64 hex digits that are all decimal digits, 2 = the repository's example.cfg (ports rewritten)
+    pub special: u8,
+}
+
+fn effective_workers(c: &ConfigCase) -> usize {
+    c.workers.map(|w| w as usize).unwrap_or_else(|| std::thread::available_parallelism().map(|n| n.get()).unwrap_or(1))
+}
+
+fn check_config(ctx: &mut Ctx, c: &ConfigCase) -> Res {
+    ctx.eval();
+    let seed_hex = match c.special {
+        1 => "1234567890123456789012345678901234567890123456789012345678901234".to_string(),
+        _ => GOOD_SEED.to_string(),
+    };
+    let cfg = if c.special == 2 {
+        // example.cfg as shipped: port, interface, seed, health_check_port; workers default
+        SrvCfg { seed_hex: seed_hex.clone(), health: true, ..Default::default() }
+    } else {
+        SrvCfg { seed_hex: seed_hex.clone(), workers: c.workers.map(|w| w as u64), health: c.health, batch_size: c.batch_size.map(|b| b as u32), fault: c.fault.map(|f| f as u32), status_interval: c.status_interval.map(|s| s as u32), client_stats: c.stats, via_env: c.via_env, extra: vec![] }
+    };
+    if c.special == 2 {
+        // make sure we really mirror the repository's file: same keys as /repo/example.cfg
+        let ex = std::fs::read_to_string("/repo/example.cfg").unwrap_or_default();
+        let keys: Vec<&str> = ex.lines().filter_map(|l| l.split(':').next()).map(|k| k.trim()).filter(|k| !k.is_empty() && !k.starts_with('#')).collect();
+        let mut want = vec!["port", "interface", "seed", "health_check_port"];
+        let mut have = keys.clone();
+        want.sort();
+        have.sort();
+        if want != have {
+            ctx.note(format!("example.cfg keys are {:?}; the harness mirrors {:?}", keys, want));
+        }
+    }
+    let n = if c.special == 2 { effective_workers(&ConfigCase { workers: None, ..c.clone() }) } else { effective_workers(c) };
+    let fault = cfg.fault.unwrap_or(0);
+    let tag = format!("workers={} health={} stats={} src={} special={}", n, cfg.health, cfg.client_stats, if cfg.via_env { "env" } else { "file" }, c.special);
+    let mut s = match ServerProc::start(&cfg) {
+        Ok(s) => s,
+        Err(e) => {
+            ctx.inconclusive(format!("proclab: {}", e));
+            return Ok(());
+        }
+    };
+    if let Err(e) = s.wait_ready(Duration::from_secs(10)) {
+        let out = s.output();
+        if out.contains("Address already in use") && !out.contains("health check") {
+            ctx.inconclusive(format!("port race: {}", e));
+            return Ok(());
+        }
+        let sig = if c.special == 1 { "start-up-fails|seed-scalar-not-yaml-string" } else if out.contains("panicked") { "start-up-panics" } else { "not-serving-after-start" };
+        return ctx.fail(sig, format!("{}: the server does not serve within 10 s: {}", tag, truncate(&e, 500)));
+    }
+    // all configured workers come up, with distinct names
+    let want_names: Vec<String> = (0..n).map(|i| format!("worker-{}", i)).collect();
+    let deadline = Instant::now() + Duration::from_secs(3);
+    let mut names;
+    loop {
+        names = s.thread_names();
+        let have: HashSet<&String> = names.iter().filter(|x| x.starts_with("worker-")).collect();
+        if want_names.iter().all(|w| have.contains(w)) || Instant::now() > deadline {
+            break;
+        }
+        std::thread::sleep(Duration::from_millis(20));
+    }
+    let live_workers = |names: &Vec<String>| -> usize { want_names.iter().filter(|w| names.contains(w)).count() };
+    if live_workers(&names) != n {
+        let out = s.output();
+        let why = if out.contains("failed to bind TCP listener") { "health-listener-bind" } else if out.contains("panicked") { "worker-panic" } else { "unknown" };
+        return ctx.fail(
+            format!("fewer-live-workers-than-configured|{}", why),
+            format!("{}: {} of {} configured workers are alive (threads {:?}); output: {}", tag, live_workers(&names), n, names, truncate(&out.lines().filter(|l| l.contains("panicked") || l.contains("rror")).take(4).collect::<Vec<_>>().join(" | "), 600)),
+        );
+    }
+    // 64*N classic requests from distinct sockets, waves of <= 48 in flight, each answered exactly once
+    let total = 64 * n;
+    let mut keys: HashSet<Vec<u8>> = HashSet::new();
+    let (mut verified, mut failed) = (0usize, 0usize);
+    let mut k = 0u64;
+    let mut sent_total = 0usize;
+    while sent_total < total {
+        let wave = 48.min(total - sent_total);
+        let socks: Vec<UdpSocket> = (0..wave).map(|_| UdpSocket::bind("127.0.0.1:0").unwrap()).collect();
+        let mut reqs = vec![];
+        for sock in &socks {
+            k += 1;
+            let req = fresh_request(Proto::Classic, b"c15", k ^ ((s.port as u64) << 32));
+            let _ = sock.send_to(&req, s.addr());
+            reqs.push(req);
+        }
+        for (sock, req) in socks.iter().zip(reqs.iter()) {
+            sock.set_read_timeout(Some(Duration::from_secs(3))).unwrap();
+            let mut buf = [0u8; 4096];
+            match sock.recv_from(&mut buf) {
+                Ok((len, _)) => match verify_strict(Proto::Classic, req, &buf[..len], &s.pk) {
+                    Ok(info) => {
+                        verified += 1;
+                        keys.insert(pubk_of(&info));
+                    }
+                    Err(e) => {
+                        failed += 1;
+                        if fault == 0 {
+                            return ctx.fail(format!("reply-invalid|{}", e), format!("{}: a reply fails strict verification under the seed's key: {}", tag, e));
+                        }
+                    }
+                },
+                Err(_) => {
+                    if s.udp_drops() > 0 {
+                        ctx.inconclusive(format!("{}: a request went unanswered but the kernel reports drops", tag));
+                        return Ok(());
+                    }
+                    return ctx.fail("request-unanswered", format!("{}: a valid request got no reply within 3 s (no kernel drops); workers alive: {:?}", tag, s.thread_names()));
+                }
+            }
+            // exactly once: nothing further queued for this socket
+            sock.set_nonblocking(true).unwrap();
+            if sock.recv_from(&mut buf).is_ok() {
+                return ctx.fail("request-answered-twice", format!("{}: a second datagram arrived for one request", tag));
+            }
+        }
+        sent_total += wave;
+    }
+    if keys.len() != n {
+        return ctx.fail(
+            "distinct-worker-certificates",
+            format!("{}: {} verified replies ({} failed) carry {} distinct delegated keys, expected one per worker = {}", tag, verified, failed, keys.len(), n),
+        );
+    }
+    // health port: 3*N sequential connections, each gets exactly the fixed response then EOF; UDP keeps being answered
+    if let Some(hc) = s.hc_port {
+        const WANT: &str = "HTTP/1.1 200 OK\nContent-Length: 0\nConnection: close\n\n";
+        let probe = UdpSocket::bind("127.0.0.1:0").unwrap();
+        for j in 0..3 * n {
+            let mut st = match TcpStream::connect_timeout(&format!("127.0.0.1:{}", hc).parse().unwrap(), Duration::from_secs(2)) {
+                Ok(st) => st,
+                Err(e) => return ctx.fail("health-connect-failed", format!("{}: connection #{} to the health port failed: {}", tag, j, e)),
+            };
+            st.set_read_timeout(Some(Duration::from_secs(3))).unwrap();
+            let _ = st.write_all(b"GET / HTTP/1.0\r\n\r\n");
+            let mut got = Vec::new();
+            let r = st.read_to_end(&mut got);
+            if r.is_err() && got.is_empty() {
+                return ctx.fail("health-no-response", format!("{}: health connection #{} got no response within 3 s", tag, j));
+            }
+            if got != WANT.as_bytes() {
+                return ctx.fail("health-response-differs", format!("{}: health connection #{} read {:?}", tag, j, String::from_utf8_lossy(&got)));
+            }
+            k += 1;
+            let req = fresh_request(Proto::Classic, b"c15h", k);
+            match exchange(&probe, s.addr(), &req, Duration::from_secs(3)) {
+                Some(r) => {
+                    if fault == 0 && verify_strict(Proto::Classic, &req, &r, &s.pk).is_err() {
+                        return ctx.fail("reply-invalid|during-health-checks", format!("{}: invalid reply while health checks run", tag));
+                    }
+                }
+                None => return ctx.fail("time-service-stalls-during-health-checks", format!("{}: UDP request unanswered while health checks run", tag)),
+            }
+        }
+    }
+    // liveness after 1 s, no panic text
+    std::thread::sleep(Duration::from_secs(1));
+    let names = s.thread_names();
+    if !s.alive() || live_workers(&names) != n {
+        return ctx.fail("worker-died-after-start", format!("{}: after 1 s only {} of {} workers are alive (process alive: {})", tag, live_workers(&names), n, s.alive()));
+    }
+    let out = s.output();
+    if out.contains("panicked") {
+        return ctx.fail("panic-text-on-stderr", format!("{}: {}", tag, truncate(&out.lines().filter(|l| l.contains("panicked")).take(3).collect::<Vec<_>>().join(" | "), 500)));
+    }
+    s.signal(libc::SIGTERM);
+    s.wait_exit(Duration::from_secs(5));
+    ctx.class(&format!("c15:workers={}:health={}:stats={}:{}", if n == 1 { "1" } else if n <= 4 { "2-4" } else { "5-16" }, cfg.health, cfg.client_stats, if cfg.via_env { "env" } else { "file" }));
+    if n >= 2 || cfg.health || cfg.client_stats {
+        ctx.nontrivial(c);
+    }
+    Ok(())
+}
+
+fn truncate(s: &str, n: usize) -> String {
+    if s.len() <= n {
+        s.to_string()
+    } else {
+        let mut c = n;
+        while !s.is_char_boundary(c) {
+            c -= 1;
+        }
+        format!("{}…", &s[..c])
+    }
+}
+
+fn c15_pairwise() -> Vec<ConfigCase> {
+    // all pairs of {workers>1, health, stats, source}, plus boundary values of the other options
+    let mut out = vec![ConfigCase { workers: None, health: true, batch_size: None, fault: None, status_interval: None, stats: false, via_env: false, special: 2 }];
+    let bs = [1u8, 2, 63, 64];
+    let fs = [0u8, 1, 50];
+    let si = [1u16, 10, 600];
+    let ws = [1u8, 2, 3, 4, 8, 16];
+    let mut i = 0usize;
+    for health in [false, true] {
+        for stats in [false, true] {
+            for via_env in [false, true] {
+                for multi in [false, true] {
+                    i += 1;
+                    let w = if multi { ws[1 + i % 5] } else { 1 };
+                    out.push(ConfigCase { workers: Some(w), health, batch_size: Some(bs[i % 4]), fault: Some(fs[i % 3]), status_interval: Some(si[i % 3]), stats, via_env, special: 0 });
+                }
+            }
+        }
+    }
+    // defaults left unwritten, all 16 workers
+    out.push(ConfigCase { workers: None, health: false, batch_size: None, fault: None, status_interval: None, stats: false, via_env: true, special: 0 });
+    out.push(ConfigCase { workers: Some(16), health: true, batch_size: Some(64), fault: Some(0), status_interval: Some(600), stats: false, via_env: true, special: 0 });
+    // awkward-to-write in-range seed
+    out.push(ConfigCase { workers: Some(1), health: false, batch_size: None, fault: None, status_interval: None, stats: false, via_env: false, special: 1 });
+    out.push(ConfigCase { workers: Some(1), health: false, batch_size: None, fault: None, status_interval: None, stats: false, via_env: true, special: 1 });
+    out
+}
+
+fn c15_random() -> impl Strategy<Value = ConfigCase> {
+    (prop_oneof![1 => Just(None), 6 => (1u8..=16).prop_map(Some)], any::<bool>(), prop::sample::select(vec![1u8, 2, 63, 64]), prop::sample::select(vec![0u8, 1, 50]), prop::sample::select(vec![1u16, 10, 600]), prop::bool::weighted(0.25), any::<bool>())
+        .prop_map(|(workers, health, bs, f, si, stats, via_env)| ConfigCase { workers, health, batch_size: Some(bs), fault: Some(f), status_interval: Some(si), stats, via_env, special: 0 })
+}
+
+pub fn run_c15(ctx: &mut Ctx) -> Vec<Violation> {
+    let t = ctx.tier;
+    let mut out = vec![];
+    let grid = c15_pairwise();
+    let v = run_enum(ctx, "pairwise", grid.len() as u64, |i| grid[i as usize].clone(), |ctx, c| check_config(ctx, c));
+    if ctx.shard == 0 {
+        ctx.sample("pairwise", 3, &grid[0]);
+        ctx.sample("pairwise", 3, &grid[3]);
+    }
+    out.extend(v);
+    out.extend(run_prop(ctx, "random", t.pick(16, 400), 8, c15_random(), |ctx, c| {
+        ctx.sample("random", 2, c);
+        check_config(ctx, c)
+    }));
+    out
+}
+
+pub fn replay_c15(ctx: &mut Ctx, _sub: &str, case: &Value) -> Res {
+    replay_case::<ConfigCase, _>(ctx, case, |ctx, c| check_config(ctx, c))
+}
+
+// =========================================================================================== C18
+
+#[derive(Debug, Clone, Serialize, Deserialize)]
+pub struct Round {
+    pub workers: u8,
+    pub stats: bool,
+    pub clients: u8,
+    /// 0 classic, 1 ietf, 2 per-client alternating, 3 per-request alternating
+    pub mix: u8,
+    pub reqs: u16,
+    pub think_us: u16,
+    pub shared_nonces: bool,
+    pub batch_size: u8,
+}
+
+struct ClientOutcome {
+    violation: Option<Viol>,
+    inconclusive: Option<String>,
+    keys: HashSet<Vec<u8>>,
+    done: u64,
+}
+
+fn run_round(ctx: &mut Ctx, s: &mut ServerProc, r: &Round, round_no: u64) -> Res {
+    let addr = s.addr();
+    let pk = s.pk.clone();
+    let port = s.port;
+    let n_clients = r.clients.max(1) as usize;
+    let mut handles = vec![];
+    for c in 0..n_clients {
+        let r = r.clone();
+        let pk = pk.clone();
+        handles.push(std::thread::spawn(move || -> ClientOutcome {
+            let mut out = ClientOutcome { violation: None, inconclusive: None, keys: HashSet::new(), done: 0 };
+            let sock = UdpSocket::bind("127.0.0.1:0").unwrap();
+            let my_port = sock.local_addr().unwrap().port();
+            let mut buf = [0u8; 4096];
+            for k in 0..r.reqs as u64 {
+                let proto = match r.mix % 4 {
+                    0 => Proto::Classic,
+                    1 => Proto::Ietf,
+                    2 => if c % 2 == 0 { Proto::Classic } else { Proto::Ietf },
+                    _ => if (k + c as u64) % 2 == 0 { Proto::Classic } else { Proto::Ietf },
+                };
+                // shared nonces: all clients use the same nonce sequence
+                let id = if r.shared_nonces { k } else { (c as u64) << 32 | k };
+                let req = fresh_request(proto, b"c18", id ^ (round_no << 48));
+                sock.set_nonblocking(false).unwrap();
+                sock.set_read_timeout(Some(Duration::from_secs(10))).unwrap();
+                if sock.send_to(&req, addr).is_err() {
+                    out.inconclusive = Some("send failed".into());
+                    return out;
+                }
+                match sock.recv_from(&mut buf) {
+                    Ok((len, _)) => match verify_strict(proto, &req, &buf[..len], &pk) {
+                        Ok(info) => {
+                            out.keys.insert(info.pubk.clone());
+                            out.done += 1;
+                        }
+                        Err(e) => {
+                            out.violation = Some(viol(format!("reply-invalid-under-load|{}", e), format!("client {} request {} ({}): reply fails strict verification for the outstanding request: {}", c, k, proto.name(), e)));
+                            return out;
+                        }
+                    },
+                    Err(_) => {
+                        let drops = udp_drops_for_port(port) + udp_drops_for_port(my_port);
+                        if drops > 0 {
+                            out.inconclusive = Some(format!("request unanswered but {} kernel drops reported", drops));
+                        } else {
+                            out.violation = Some(viol("request-unanswered-under-load", format!("client {} request {} ({}) got no reply within 10 s and the kernel reports no drops", c, k, proto.name())));
+                        }
+                        return out;
+                    }
+                }
+                // closed loop: nothing else may be queued for us
+                sock.set_nonblocking(true).unwrap();
+                if let Ok((len, _)) = sock.recv_from(&mut buf) {
+                    out.violation = Some(viol("second-datagram-for-one-request", format!("client {} request {}: an extra datagram of {} bytes arrived", c, k, len)));
+                    return out;
+                }
+                if r.think_us > 0 {
+                    std::thread::sleep(Duration::from_micros(r.think_us as u64));
+                }
+            }
+            // final drain
+            std::thread::sleep(Duration::from_millis(100));
+            sock.set_nonblocking(true).unwrap();
+            if let Ok((len, _)) = sock.recv_from(&mut buf) {
+                out.violation = Some(viol("second-datagram-for-one-request", format!("client {}: a stray datagram of {} bytes arrived after the round", c, len)));
+            }
+            out
+        }));
+    }
+    let mut keys = HashSet::new();
+    let mut first_v = None;
+    let mut done = 0;
+    for h in handles {
+        let o = h.join().unwrap();
+        done += o.done;
+        keys.extend(o.keys);
+        if let Some(m) = o.inconclusive {
+            ctx.inconclusive(format!("C18 round: {}", m));
+        }
+        if first_v.is_none() {
+            first_v = o.violation;
+        }
+    }
+    ctx.evals(done);
+    if let Some(v) = first_v {
+        return ctx.fail(v.sig, format!("workers={} clients={} mix={}: {}", r.workers, n_clients, r.mix, v.what));
+    }
+    let n = r.workers as usize;
+    let names = s.thread_names();
+    let live = (0..n).filter(|i| names.contains(&format!("worker-{}", i))).count();
+    if !s.alive() || live != n {
+        return ctx.fail("worker-died-under-load", format!("workers={}: {} alive after the round (process alive {}); output tail: {}", n, live, s.alive(), truncate(&s.output().lines().rev().take(3).collect::<Vec<_>>().join(" | "), 400)));
+    }
+    if s.output().contains("panicked") {
+        return ctx.fail("panic-text-under-load", truncate(&s.output().lines().filter(|l| l.contains("panicked")).take(2).collect::<Vec<_>>().join(" | "), 400));
+    }
+    ctx.class(&format!("c18:workers={}:clients={}:keys-seen={}", n, if n_clients == 1 { "1" } else if n_clients <= 8 { "2-8" } else { "9-64" }, if keys.len() >= 2 { ">=2" } else { "1" }));
+    if n >= 2 && n_clients >= 2 && keys.len() >= 2 {
+        ctx.nontrivial(&(r.workers, r.clients, r.mix, r.reqs, r.think_us, r.shared_nonces, round_no));
+    }
+    Ok(())
+}
+
+#[derive(Debug, Clone, Serialize, Deserialize)]
+pub struct Campaign {
+    pub rounds: Vec<Round>,
+}
+
+fn check_campaign(ctx: &mut Ctx, c: &Campaign) -> Res {
+    if c.rounds.is_empty() {
+        return Ok(());
+    }
+    let r0 = &c.rounds[0];
+    let cfg = SrvCfg { seed_hex: GOOD_SEED.into(), workers: Some(r0.workers as u64), batch_size: Some(r0.batch_size as u32), client_stats: r0.stats, status_interval: Some(10), ..Default::default() };
+    let mut s = match ServerProc::start(&cfg) {
+        Ok(s) => s,
+        Err(e) => {
+            ctx.inconclusive(format!("proclab: {}", e));
+            return Ok(());
+        }
+    };
+    if let Err(e) = s.wait_ready(Duration::from_secs(10)) {
+        ctx.inconclusive(format!("C18: server not ready: {}", truncate(&e, 300)));
+        return Ok(());
+    }
+    std::thread::sleep(Duration::from_millis(150));
+    for (i, r) in c.rounds.iter().enumerate() {
+        let mut r = r.clone();
+        r.workers = r0.workers;
+        run_round(ctx, &mut s, &r, i as u64)?;
+    }
+    s.signal(libc::SIGTERM);
+    s.wait_exit(Duration::from_secs(5));
+    Ok(())
+}
+
+fn round_strategy(workers: u8) -> impl Strategy<Value = Round> {
+    (prop::bool::weighted(0.15), prop_oneof![1 => Just(1u8), 3 => 2u8..=16, 2 => 17u8..=64], 0u8..4, prop_oneof![3 => 20u16..=80, 1 => 80u16..=300], prop_oneof![2 => Just(0u16), 1 => 0u16..=2000], any::<bool>(), prop::sample::select(vec![1u8, 2, 8, 64]))
+        .prop_map(move |(stats, clients, mix, reqs, think_us, shared_nonces, batch_size)| Round { workers, stats, clients, mix, reqs, think_us, shared_nonces, batch_size })
+}
+
+pub fn run_c18(ctx: &mut Ctx) -> Vec<Violation> {
+    let t = ctx.tier;
+    let mut out = vec![];
+    // each shard takes one worker count; several campaigns (servers) of several rounds each
+    let wc = [1u8, 2, 4, 8, 16][(ctx.shard % 5) as usize];
+    let camp = proptest::collection::vec(round_strategy(wc), t.pick(2..=3, 4..=8)).prop_map(|rounds| Campaign { rounds });
+    // run_prop shares `cases` over shards; we want a fixed number per shard
+    let per_shard = t.pick(2u64, 40u64);
+    out.extend(run_prop(ctx, &format!("campaign-w{}", wc), per_shard * ctx.nshards as u64, 6, camp, |ctx, c| {
+        ctx.sample("campaign", 1, &c.rounds.iter().map(|r| (r.workers, r.clients, r.mix, r.reqs)).collect::<Vec<_>>());
+        check_campaign(ctx, c)
+    }));
+    out
+}
+
+pub fn replay_c18(ctx: &mut Ctx, _sub: &str, case: &Value) -> Res {
+    // schedules are not replayable: re-run the plan up to 20 times
+    let c: Campaign = serde_json::from_value(case.clone()).map_err(|e| viol("bad-replay-file", e.to_string()))?;
+    for _ in 0..20 {
+        check_campaign(ctx, &c)?;
+    }
+    Ok(())
+}
+
+// =========================================================================================== C19
+
+#[derive(Debug, Clone, Serialize, Deserialize, PartialEq, Eq, Hash)]
+pub enum Load {
+    Idle,
+    /// k closed-loop clients
+    Closed(u8),
+    /// k open-loop sender threads; kind 0 valid, 1 invalid, 2 mixed
+    Flood(u8, u8),
+}
+
+#[derive(Debug, Clone, Serialize, Deserialize, PartialEq, Eq, Hash)]
+pub struct SignalPlan {
+    pub workers: u8,
+    pub stats: bool,
+    pub term: bool,
+    pub load: Load,
+    pub delay_ms: u16,
+}
+
+fn check_signal(ctx: &mut Ctx, p: &SignalPlan) -> Res {
+    ctx.eval();
+    let cfg = SrvCfg { seed_hex: GOOD_SEED.into(), workers: Some(p.workers as u64), client_stats: p.stats, status_interval: Some(10), ..Default::default() };
+    let mut s = match ServerProc::start(&cfg) {
+        Ok(s) => s,
+        Err(e) => {
+            ctx.inconclusive(format!("proclab: {}", e));
+            return Ok(());
+        }
+    };
+    if let Err(e) = s.wait_ready(Duration::from_secs(10)) {
+        ctx.inconclusive(format!("C19: server never served: {}", truncate(&e, 300)));
+        return Ok(());
+    }
+    // wait for all workers so that the signal does not race start-up (the property starts 'once the server is serving')
+    let t_end = Instant::now() + Duration::from_secs(3);
+    while s.thread_names().iter().filter(|n| n.starts_with("worker-")).count() < p.workers as usize && Instant::now() < t_end {
+        std::thread::sleep(Duration::from_millis(10));
+    }
+    let addr = s.addr();
+    let pk = s.pk.clone();
+    let stop = Arc::new(AtomicBool::new(false));
+    let last_reply_ns = Arc::new(AtomicU64::new(0));
+    let bad_reply: Arc<std::sync::Mutex<Option<String>>> = Arc::new(std::sync::Mutex::new(None));
+    let replies = Arc::new(AtomicU64::new(0));
+    let t0 = Instant::now();
+    let mut handles = vec![];
+    match &p.load {
+        Load::Idle => {}
+        Load::Closed(k) => {
+            for c in 0..(*k).max(1) {
+                let (stop, last, bad, replies, pk) = (stop.clone(), last_reply_ns.clone(), bad_reply.clone(), replies.clone(), pk.clone());
+                handles.push(std::thread::spawn(move || {
+                    let sock = UdpSocket::bind("127.0.0.1:0").unwrap();
+                    sock.set_read_timeout(Some(Duration::from_millis(300))).unwrap();
+                    let mut buf = [0u8; 4096];
+                    let mut n = 0u64;
+                    // requests sent and not yet answered (a reply may arrive after our 300 ms patience)
+                    let mut outstanding: Vec<(Proto, Vec<u8>)> = vec![];
+                    while !stop.load(Ordering::Relaxed) {
+                        n += 1;
+                        let proto = if (n + c as u64) % 2 == 0 { Proto::Classic } else { Proto::Ietf };
+                        let req = fresh_request(proto, b"c19", (c as u64) << 40 | n);
+                        if sock.send_to(&req, addr).is_err() {
+                            break;
+                        }
+                        outstanding.push((proto, req));
+                        if outstanding.len() > 64 {
+                            outstanding.remove(0);
+                        }
+                        if let Ok((len, _)) = sock.recv_from(&mut buf) {
+                            last.store(t0.elapsed().as_nanos() as u64, Ordering::Relaxed);
+                            replies.fetch_add(1, Ordering::Relaxed);
+                            let mut last_err = String::new();
+                            let hit = outstanding.iter().position(|(p, r)| match verify_strict(*p, r, &buf[..len], &pk) {
+                                Ok(_) => true,
+                                Err(e) => {
+                                    last_err = e;
+                                    false
+                                }
+                            });
+                            match hit {
+                                Some(i) => {
+                                    outstanding.remove(i);
+                                }
+                                None => {
+                                    *bad.lock().unwrap() = Some(format!("{} ({} bytes)", last_err, len));
+                                    break;
+                                }
+                            }
+                        }
+                    }
+                }));
+            }
+        }
+        Load::Flood(k, kind) => {
+            for c in 0..(*k).max(1) {
+                let stop = stop.clone();
+                let kind = *kind;
+                handles.push(std::thread::spawn(move || {
+                    let sock = UdpSocket::bind("127.0.0.1:0").unwrap();
+                    sock.set_nonblocking(true).unwrap();
+                    let valid = fresh_request(Proto::Classic, b"c19f", c as u64);
+                    let invalid = vec![0x55u8; 1024];
+                    let mut n = 0u64;
+                    // open loop: replies are left to pile up (and be dropped) at our socket
+                    while !stop.load(Ordering::Relaxed) {
+                        n += 1;
+                        let d = match kind % 3 {
+                            0 => &valid,
+                            1 => &invalid,
+                            _ => if n % 2 == 0 { &valid } else { &invalid },
+                        };
+                        let _ = sock.send_to(d, addr);
+                    }
+                }));
+            }
+        }
+    }
+    std::thread::sleep(Duration::from_millis(p.delay_ms as u64));
+    // how much is queued at the server right now (measures whether a flood really keeps the queue non-empty)
+    let rxq = (0..3).map(|_| udp_rx_queue_for_port(s.port)).max().unwrap_or(0);
+    let sig_at = t0.elapsed().as_nanos() as u64;
+    s.signal(if p.term { libc::SIGTERM } else { libc::SIGINT });
+    let t_sig = Instant::now();
+    let status = s.wait_exit(Duration::from_secs(5));
+    let reaction = t_sig.elapsed();
+    let mut late_exit = None;
+    if status.is_none() {
+        // separate "wedged by load" from "never exits": stop the load and give it 2 more seconds
+        stop.store(true, Ordering::Relaxed);
+        late_exit = s.wait_exit(Duration::from_secs(2));
+    }
+    stop.store(true, Ordering::Relaxed);
+    for h in handles {
+        let _ = h.join();
+    }
+    let sigs = if p.term { "SIGTERM" } else { "SIGINT" };
+    let load_s = match &p.load {
+        Load::Idle => "idle".to_string(),
+        Load::Closed(k) => format!("closed-loop x{}", k),
+        Load::Flood(k, kind) => format!("flood x{} ({})", k, ["valid", "invalid", "mixed"][(*kind % 3) as usize]),
+    };
+    let tag = format!("workers={} stats={} {} load={} delay={}ms", p.workers, p.stats, sigs, load_s, p.delay_ms);
+    let load_class = match &p.load {
+        Load::Idle => "idle",
+        Load::Closed(_) => "closed",
+        Load::Flood(..) => "flood",
+    };
+    match status {
+        None => {
+            let after = match late_exit {
+                Some(st) => format!("exits-once-load-stops(status {:?})", st.code()),
+                None => "still-running-2s-after-load-stopped".to_string(),
+            };
+            return ctx.fail(
+                format!("no-exit-within-5s|{}|{}", load_class, if late_exit.is_some() { "exits-once-load-stops" } else { "never" }),
+                format!("{}: the server was still running 5 s after the signal; {}", tag, after),
+            );
+        }
+        Some(st) => {
+            if st.code() != Some(0) {
+                return ctx.fail(format!("exit-status-not-0|{}", load_class), format!("{}: exit status {:?} (signal {:?}); output tail: {}", tag, st.code(), std::os::unix::process::ExitStatusExt::signal(&st), truncate(&s.output().lines().rev().take(3).collect::<Vec<_>>().join(" | "), 400)));
+            }
+        }
+    }
+    let out = s.final_output();
+    if out.contains("panicked") {
+        return ctx.fail(format!("panic-on-shutdown|{}", load_class), format!("{}: {}", tag, truncate(&out.lines().filter(|l| l.contains("panicked")).take(2).collect::<Vec<_>>().join(" | "), 400)));
+    }
+    if let Some(b) = bad_reply.lock().unwrap().clone() {
+        return ctx.fail("incomplete-or-invalid-reply-before-exit", format!("{}: a reply received around shutdown fails verification: {}", tag, b));
+    }
+    let last = last_reply_ns.load(Ordering::Relaxed);
+    let in_flight = p.load != Load::Idle && ((matches!(p.load, Load::Flood(..)) && rxq > 0) || (last > 0 && sig_at.saturating_sub(last) < 5_000_000) || last > sig_at);
+    if matches!(p.load, Load::Flood(..)) {
+        ctx.class(&format!("c19:flood:queue-at-signal={}", if rxq == 0 { "empty" } else if rxq < 100_000 { "<100KB" } else { ">=100KB" }));
+    }
+    ctx.class(&format!("c19:{}:{}:workers={}:stats={}:{}", load_class, sigs, p.workers, p.stats, if reaction < Duration::from_millis(200) { "exit<200ms" } else if reaction < Duration::from_millis(1500) { "exit<1.5s" } else { "exit<5s" }));
+    if in_flight {
+        ctx.nontrivial(&(p.workers, p.stats, p.term, format!("{:?}", p.load), p.delay_ms / 10));
+    }
+    Ok(())
+}
+
+fn c19_grid() -> Vec<SignalPlan> {
+    let mut out = vec![];
+    let delays = [0u16, 3, 50, 100, 150, 300];
+    let mut i = 0;
+    for workers in [1u8, 4, 16] {
+        for term in [false, true] {
+            for load in [Load::Idle, Load::Closed(4), Load::Flood(4, 0), Load::Flood(3, 1), Load::Closed(16), Load::Flood(6, 2)] {
+                i += 1;
+                out.push(SignalPlan { workers, stats: i % 5 == 0, term, load, delay_ms: delays[i % delays.len()] });
+            }
+        }
+    }
+    out
+}
+
+fn c19_random() -> impl Strategy<Value = SignalPlan> {
+    let load = prop_oneof![1 => Just(Load::Idle), 3 => (1u8..=24).prop_map(Load::Closed), 3 => (2u8..=8, 0u8..3).prop_map(|(k, kind)| Load::Flood(k, kind))];
+    (prop::sample::select(vec![1u8, 4, 16]), prop::bool::weighted(0.2), any::<bool>(), load, prop_oneof![2 => 0u16..=300, 1 => 90u16..=110, 1 => Just(0u16), 1 => 950u16..=1100]).prop_map(|(workers, stats, term, load, delay_ms)| SignalPlan { workers, stats, term, load, delay_ms })
+}
+
+pub fn run_c19(ctx: &mut Ctx) -> Vec<Violation> {
+    let t = ctx.tier;
+    let mut out = vec![];
+    let grid = c19_grid();
+    let v = run_enum(ctx, "grid", grid.len() as u64, |i| grid[i as usize].clone(), |ctx, p| check_signal(ctx, p));
+    if ctx.shard == 0 {
+        ctx.sample("grid", 3, &grid[2]);
+        ctx.sample("grid", 3, &grid[7]);
+    }
+    out.extend(v);
+    out.extend(run_prop(ctx, "random", t.pick(32, 1_200), 6, c19_random(), |ctx, p| {
+        ctx.sample("random", 2, p);
+        check_signal(ctx, p)
+    }));
+    out
+}
+
+pub fn replay_c19(ctx: &mut Ctx, _sub: &str, case: &Value) -> Res {
+    let p: SignalPlan = serde_json::from_value(case.clone()).map_err(|e| viol("bad-replay-file", e.to_string()))?;
+    for _ in 0..10 {
+        check_signal(ctx, &p)?;
+    }
+    Ok(())
+}
+
+// =========================================================================================== C20 (real binary)
+
+#[derive(Debug, Clone, Serialize, Deserialize)]
+pub struct LeakRun {
+    pub seed: Hex,
+    pub via_env: bool,
+    /// 0 valid config, 1 batch_size 300 (error path), 2 client_stats on without directory, 3 fault 77, 4 unknown key
+    pub variant: u8,
+    pub workers: u8,
+}
+
+fn check_leak_run(ctx: &mut Ctx, r: &LeakRun) -> Res {
+    ctx.eval();
+    let needles = super::secrets::Needles::new(&r.seed.0);
+    let mut cfg = SrvCfg { seed_hex: hex(&r.seed.0), workers: Some(r.workers.max(1) as u64), via_env: r.via_env, ..Default::default() };
+    match r.variant % 5 {
+        1 => cfg.batch_size = Some(300),
+        2 => cfg.extra.push(("client_stats".into(), "on".into())),
+        3 => cfg.fault = Some(77),
+        4 => cfg.extra.push(("frobnicate".into(), "1".into())),
+        _ => {}
+    }
+    let mut s = match ServerProc::start(&cfg) {
+        Ok(s) => s,
+        Err(e) => {
+            ctx.inconclusive(format!("proclab: {}", e));
+            return Ok(());
+        }
+    };
+    let valid = r.variant % 5 == 0;
+    if valid {
+        if let Err(e) = s.wait_ready(Duration::from_secs(10)) {
+            ctx.inconclusive(format!("C20: server not ready: {}", truncate(&e, 200)));
+            return Ok(());
+        }
+        // some traffic: valid and invalid; scan the datagrams as well
+        let sock = UdpSocket::bind("127.0.0.1:0").unwrap();
+        for k in 0..12u64 {
+            let proto = if k % 2 == 0 { Proto::Classic } else { Proto::Ietf };
+            let req = fresh_request(proto, b"c20", k);
+            if let Some(reply) = exchange(&sock, s.addr(), &req, Duration::from_secs(2)) {
+                if let Some(w) = needles.find(&reply) {
+                    return ctx.fail("secret-in-datagram", format!("real server reply contains {}", w));
+                }
+            }
+            let _ = sock.send_to(&vec![0x41u8; 1024 + (k as usize % 3)], s.addr());
+        }
+        std::thread::sleep(Duration::from_millis(50));
+        s.signal(libc::SIGTERM);
+    }
+    s.wait_exit(Duration::from_secs(5));
+    let out = s.final_output();
+    if let Some(w) = needles.find(out.as_bytes()) {
+        let line = out.lines().find(|l| needles.find(l.as_bytes()).is_some()).unwrap_or("");
+        return ctx.fail(format!("secret-in-server-output|variant{}", r.variant % 5), format!("stdout/stderr of the real server ({} source, variant {}) contains {}: {:?}", if r.via_env { "ENV" } else { "file" }, r.variant % 5, w, truncate(line, 300)));
+    }
+    if valid {
+        // positive control: the Info log announces the public key
+        let pk = hex(&RefKey::from_seed(&r.seed.0).public());
+        if !out.contains(&pk) {
+            return Err(viol("positive-control-failed", format!("public key {} not found in the server's log ({} bytes of output)", pk, out.len())));
+        }
+    } else if out.is_empty() {
+        return Err(viol("positive-control-failed", "invalid configuration produced no output at all"));
+    }
+    ctx.class(&format!("c20:real-binary:{}:variant{}", if r.via_env { "env" } else { "file" }, r.variant % 5));
+    ctx.nontrivial(&(&r.seed.0, r.via_env, r.variant % 5));
+    Ok(())
+}
+
+pub fn c20_process_part(ctx: &mut Ctx) -> Vec<Violation> {
+    let t = ctx.tier;
+    // seeds must be 64 hex chars that YAML reads as a string: force a letter into the first byte
+    let seed = bytes_exact(32).prop_map(|mut h| {
+        h.0[0] |= 0xa0;
+        h
+    });
+    let strat = (seed, any::<bool>(), 0u8..5, prop::sample::select(vec![1u8, 2])).prop_map(|(seed, via_env, variant, workers)| LeakRun { seed, via_env, variant, workers });
+    run_prop(ctx, "real-binary", t.pick(36, 720), 4, strat, |ctx, r| {
+        ctx.sample("real-binary", 2, r);
+        check_leak_run(ctx, r)
+    })
+}
+
+pub fn c20_replay(ctx: &mut Ctx, sub: &str, case: &Value) -> Res {
+    match sub {
+        "real-binary" => replay_case::<LeakRun, _>(ctx, case, |ctx, r| check_leak_run(ctx, r)),
+        _ => Err(viol("bad-replay-file", format!("unknown sub {}", sub))),
+    }
+}
+
+#[allow(dead_code)]
+fn unused(_: Msg) {
+    let _ = rc::SIG;
+    let _ = sha512(&[]);
 }
